@@ -136,7 +136,7 @@ func c11R1(c *Ctx, r *Report, rule string) {
 
 // c11Handle path-evaluates the proxy handler's retry loop and connection accounting.
 func c11Handle(c *Ctx, r *Report, rule string) {
-	r.rule(rule, "proxy Handle over every outcome of Select/dialPeers/tryAgain (2 peers): re-selection only after tryAgain()==true; giving up returns the last dial error or 'no upstreams available'; on success countConn(+1) once per peer, proxy(down, dialed conns), and the deferred cleanup closes every dialed connection and calls countConn(-1) once per peer", 3)
+	r.rule(rule, "proxy Handle over every outcome of Select/dialPeers/tryAgain (2 peers): re-selection only after tryAgain()==true, and tryAgain is given a reading of the clock taken before the first selection (each time.Now() is a value of its own); giving up returns the last dial error or 'no upstreams available'; on success countConn(+1) once per peer, proxy(down, dialed conns), and the deferred cleanup closes every dialed connection and calls countConn(-1) once per peer", 3)
 	fnName := "modules/l4proxy.(*Handler).Handle"
 	fn := c.Fn(fnName)
 	if fn == nil {
@@ -155,7 +155,15 @@ func c11Handle(c *Ctx, r *Report, rule string) {
 			return SV{K: "ref", Known: true, Desc: "errNoUpstreams"}, true
 		case callee == "modules/l4proxy.(*Handler).proxy":
 			return symOpaque("relayed"), true // the relay itself is decided by C03.R1-R3
-		case callee == "time.Now", strings.HasPrefix(callee, "invoke context.Context.Value"):
+		case callee == "time.Now":
+			k := 1
+			for _, e := range st.trace {
+				if e.Kind == "call" && e.What == "time.Now" {
+					k++
+				}
+			}
+			return symOpaque(fmt.Sprintf("now#%d", k)), true // each reading of the clock is a value of its own
+		case strings.HasPrefix(callee, "invoke context.Context.Value"):
 			return symOpaque(shortCallee(callee)), true
 		}
 		return SV{}, false
@@ -229,6 +237,29 @@ func c11Handle(c *Ctx, r *Report, rule string) {
 				} else {
 					gaveUp = true
 				}
+				// try_duration runs from the connection's arrival: the start handed to tryAgain is a reading of the
+				// clock taken before the first selection, not one taken again inside the retry loop
+				if len(e.Args) > 0 {
+					start, nowIdx, selIdx := e.Args[len(e.Args)-1], -1, -1
+					nNow := 0
+					for i2, e2 := range p.Trace {
+						if e2.Kind != "call" {
+							continue
+						}
+						if e2.What == "time.Now" {
+							nNow++
+							if fmt.Sprintf("now#%d", nNow) == start {
+								nowIdx = i2
+							}
+						}
+						if e2.What == selID && selIdx < 0 {
+							selIdx = i2
+						}
+					}
+					if nowIdx < 0 || selIdx < 0 || nowIdx > selIdx {
+						retryProblems = append(retryProblems, "tryAgain is given the start time "+start+", which is not a reading of the clock taken before the first selection: try_duration then runs from the last attempt and a connection whose dials keep failing is retried forever instead of failing after try_duration")
+					}
+				}
 			case e.What == "modules/l4proxy.(*peer).countConn":
 				if e.Args[1] == "1" {
 					plus = append(plus, e.Args[0])
@@ -285,7 +316,7 @@ func c11Handle(c *Ctx, r *Report, rule string) {
 }
 
 func c11R4(c *Ctx, r *Report, rule string) {
-	r.rule(rule, "active health check polarity: setHealthy(false) only on the edge where the dial returned an error, setHealthy(true) only where it did not", 2)
+	r.rule(rule, "active health check polarity: setHealthy(false) only on the edge where the dial returned an error, setHealthy(true) only where it did not; every path through the probe dials the peer and reaches a setHealthy call before it returns (no peer is skipped)", 3)
 	fn := c.Fn("modules/l4proxy.(*Handler).doActiveHealthCheck")
 	if fn == nil {
 		r.bad(rule, "modules/l4proxy.(*Handler).doActiveHealthCheck", "exists", "-", "function not found")
@@ -309,6 +340,35 @@ func c11R4(c *Ctx, r *Report, rule string) {
 		good := ok && dialErr != nil && ((v && knownNil(ci.Block(), dialErr, true)) || (!v && knownNil(ci.Block(), dialErr, false)))
 		r.check(good, rule, fname(fn), fmt.Sprintf("setHealthy(%v)", v), c.ipos(ci), "polarity follows the dial result", "setHealthy is not called with the constant matching the dial outcome on its edge: a peer that refuses connections is marked up (or the reverse)")
 	}
+	// every probe ends with a verdict: no return is reachable without passing the dial and a setHealthy call, whatever
+	// the peer's network or address (a peer that is skipped keeps the status it had and is never marked down or up again)
+	isVerdict := func(in ssa.Instruction) bool {
+		ci, ok := in.(ssa.CallInstruction)
+		return ok && calleeID(ci) == "modules/l4proxy.(*peer).setHealthy"
+	}
+	isDial := func(in ssa.Instruction) bool {
+		ci, ok := in.(ssa.CallInstruction)
+		return ok && (calleeID(ci) == "net.DialTimeout" || calleeID(ci) == "net.Dial" || strings.HasSuffix(calleeID(ci), "Dialer).Dial") || strings.HasSuffix(calleeID(ci), "Dialer).DialContext"))
+	}
+	reportsError := func(in ssa.Instruction) bool { // a return of a freshly made error tells the caller that the check did not occur
+		ret, ok := in.(*ssa.Return)
+		if !ok || len(ret.Results) == 0 {
+			return false
+		}
+		call, ok := ret.Results[len(ret.Results)-1].(*ssa.Call)
+		return ok && (calleeID(call) == "fmt.Errorf" || calleeID(call) == "errors.New")
+	}
+	plainReturn := func(in ssa.Instruction) bool { return isReturn(in) && !reportsError(in) }
+	skipV := pathFromEntryAvoiding(fn, plainReturn, isVerdict)
+	skipD := pathFromEntryAvoiding(fn, plainReturn, isDial)
+	bad := ""
+	if skipV != nil {
+		bad = "the return at " + c.ipos(skipV) + " is reachable without any setHealthy call"
+	} else if skipD != nil {
+		bad = "the return at " + c.ipos(skipD) + " is reachable without dialing the peer"
+	}
+	r.check(bad == "", rule, fname(fn), "every probe dials and ends with a verdict", c.pos(fn.Pos()), "no return without a dial and a setHealthy call before it",
+		bad+": such a peer keeps whatever status it had - it is not marked down while it refuses connections (or never comes back up)")
 }
 
 func c11R5(c *Ctx, r *Report, rule string) {
